@@ -4,6 +4,7 @@ Serves C01, C02, C07, C08 and (as an event source) C16.  Which monitors judge is
 monitors of the other properties that fire cut the branch without being reported (DESIGN.md section 6).
 """
 from ..explorer import Driver, tick_menu
+from ..rulesgen import rules_xml, groups_of
 from ..monitors import (FsmGraphMonitor, DetectionMonitor, MasterOnlyMonitor, internal_errors, groups,
                         master_of, instance_states)
 from ..world import World, make_scenario
@@ -58,8 +59,12 @@ class Cluster(Driver):
     def build(self, cfg):
         n = cfg['n']
         groups_ = {'app': {'a': {}}} if cfg.get('rules') else {}
+        rules_ = RULES_AUTO if cfg.get('rules') else None
+        if cfg.get('apps'):
+            # an explicit rules description replaces the canonical one
+            rules_, groups_ = rules_xml(cfg['apps']), groups_of(cfg['apps'], cfg.get('extra_groups'))
         sc = make_scenario(n, config=cfg.get('options'), nicks=cfg.get('nicks'), core=cfg.get('core'),
-                           rules=RULES_AUTO if cfg.get('rules') else None, groups=groups_,
+                           rules=rules_, groups=groups_,
                            node_of=cfg.get('node_of'), set_order=cfg.get('set_order'))
         w = World(sc)
         opts = sc['config']
